@@ -1,8 +1,8 @@
 #!/bin/bash
 # usage: sweep_clean.sh [dir-glob ...]  — every stored behaviour-preserving variant (hidden/*/clean.diff, refactors/*/patch.diff,
-# small/*/*.diff) × every check (or those named in $CHECKS); prints the runs that exit 1 (false alarms)
+# refactors/small/*/*.diff; or the files named in $ONLY) × every check (or those named in $CHECKS); prints the runs that exit 1 (false alarms)
 T=$(mktemp -d /tmp/sweep.XXXX)
-ls /verif/hidden/*/clean.diff /verif/refactors/*/patch.diff /verif/small/*/*.diff 2>/dev/null > $T/list
+ls ${ONLY:-/verif/hidden/*/clean.diff /verif/refactors/*/patch.diff /verif/refactors/small/*/*.diff} 2>/dev/null > $T/list
 n=0
 while read f; do
   n=$((n+1)); d=$T/v$n; mkdir -p $d; cp -r /repo/persim $d/; (cd $d && patch -s -p1 < $f >/dev/null 2>&1) || { echo "does not apply: $f"; continue; }
